@@ -5,7 +5,9 @@ where
     S: AsRef<str>,
 {
     let input = input.as_ref();
-    let normalized = input.replace(" ", "").replace("-", "+-");
+    // Any whitespace is insignificant (the macro input is re-spaced by the compiler,
+    // which breaks long invocations over several lines)
+    let normalized = input.replace(char::is_whitespace, "").replace("-", "+-");
     let mut parts: Vec<&str> = normalized.split('+').collect();
 
     // Handles instance of the first value of poly being negative
